@@ -64,7 +64,7 @@ FUNCS = {"float": float, "setattr": _setattr, "str": str, "dict": dict, "os.path
          "operator.neg": operator.neg, "operator.add": operator.add, "operator.sub": operator.sub, "operator.itemgetter": operator.itemgetter,
          "itemgetter": operator.itemgetter, "itertools.chain": lambda *a: list(itertools.chain(*a)), "chain": lambda *a: list(itertools.chain(*a)),
          "itertools.permutations": itertools.permutations, "itertools.repeat": lambda *a: list(itertools.repeat(*a)) if len(a) == 2 else _unk("repeat"),
-         "math.log": math.log, "log": math.log, "math.log2": math.log2, "log2": math.log2, "math.sqrt": math.sqrt,
+         "math.log": math.log, "log": math.log, "sqrt": math.sqrt, "math.isqrt": math.isqrt, "isqrt": math.isqrt, "math.gcd": math.gcd, "gcd": math.gcd, "math.log2": math.log2, "log2": math.log2, "math.sqrt": math.sqrt,
          "itertools.combinations_with_replacement": itertools.combinations_with_replacement,
          "combinations_with_replacement": itertools.combinations_with_replacement, "itertools.islice": lambda *a: list(itertools.islice(*a)),
          "islice": lambda *a: list(itertools.islice(*a)), "functools.reduce": reduce, "reduce": reduce,
